@@ -20,7 +20,8 @@ RULE = ("cases: every op/layer/loss of the two catalogues x operand layout (inde
         "graph is built; distinct by hash of the case"
         " Also: exact zeros among the operands, upstream gradient of the other dtype, batch-norm running-statistic buffers snapshotted around forward and backward, operands that no longer require grad but still hold a gradient (frozen after training), the second backward seeded with the live .grad handle of the first root."
         " Round 4: the same program rebuilt 12 times at other addresses with unrelated allocations in between (one leaf, 2-6 consumers whose contributions differ by up to 11 orders of magnitude): result and leaf gradient bit-identical."
-        " Round 6: an eval-mode BatchNorm that holds only one running statistic must not write it.")
+        " Round 6: an eval-mode BatchNorm that holds only one running statistic must not write it."
+        " Round 7: operand values with full mantissas (x 4/3, x 7/9); raw NumPy arrays (also views) as the right operand of / * + - @.")
 ASSUMPTIONS = ["Tensor(ndarray) wraps the given array without copying when the dtype matches (so views stay views)",
                "dropout/random constructors are excluded from the bit-identical-repetition assertion (they are C19's)"]
 
